@@ -221,6 +221,63 @@ def case_cuts(p):
     return out
 
 
+def case_framesplits(p):
+    """Every choice of where the accessory ends its frames (the only thing the HTTP layer behind the decryption ever sees as a read boundary):
+    every two-frame split point of the plaintext and every uniform frame size, each delivered as one read and frame by frame."""
+    msgs = p["msgs"]
+    plain_len = len(b"".join(render(dict(m, headers=[tuple(h) for h in m.get("headers", [])], body=bytes(m.get("body", b""))))[0] for m in msgs))
+    choices = [[k, 1024] for k in range(1, min(plain_len, 1024))] + [[s] for s in range(1, min(plain_len, p.get("max_uniform", 64)) + 1)]
+    if p.get("triples"):
+        st = p["triples"]
+        choices += [[a, b - a, 1024] for a in range(1, plain_len, st) for b in range(a + 1, min(plain_len, a + 1024), st)]
+    loop = vloop.VirtualLoop().install()
+    out = []
+    trans = 0
+    try:
+        for sizes in choices:
+            if sizes[-1] == 1024 and len(sizes) > 1:
+                # first frames as given, the rest in full frames
+                framer = ipacc.Framer(A2C, C2A)
+                plain = b""
+                sent = []
+                for m in msgs:
+                    w, e = render(dict(m, headers=[tuple(h) for h in m.get("headers", [])], body=bytes(m.get("body", b""))))
+                    plain += w
+                    sent.append(e)
+                pos, frames = 0, []
+                for n in sizes[:-1]:
+                    frames.append(framer.seal_frames(plain[pos : pos + n], [1024])[0])
+                    pos += n
+                if pos < len(plain):
+                    frames += framer.seal_frames(plain[pos:], [1024])
+                sent = tuple(sent)
+            else:
+                stream, sent, bounds = build_stream(msgs, sizes)
+                frames = [stream[s:e] for s, e, _ in bounds]
+            for mode in ("one-read", "per-frame"):
+                pr = make_secure(len(sent) + 1)
+                try:
+                    for piece in ([b"".join(frames)] if mode == "one-read" else frames):
+                        pr.data_received(piece)
+                        trans += 1
+                        o = observe(pr)
+                        if o != sent[: len(o)]:
+                            raise AssertionError("delivered is not a prefix of sent")
+                except Exception as e:  # noqa: BLE001
+                    out.append(("inbound:frame-boundary-fails", {"frame_sizes": sizes, "mode": mode, "error": f"{type(e).__name__}: {e}"[:200]}))
+                    break
+                if observe(pr) != sent:
+                    out.append(("inbound:frame-boundary-differs", {"frame_sizes": sizes, "mode": mode, "got_n": len(observe(pr)), "sent_n": len(sent)}))
+                    break
+            if out:
+                break
+    finally:
+        loop.shutdown()
+    p["_stats"] = (0, trans, plain_len)
+    p["_n"] = len(choices)
+    return out
+
+
 def case_corrupt(p):
     """Flip bit `bit` of the stream; deliver whole (cut=None) or cut at `cuts` positions, through a MemTransport so the
     real fatal-error path runs; a request is pending."""
@@ -275,6 +332,9 @@ def case_corrupt(p):
                 n_deliv = len(delivered) + len(events)
                 if n_deliv > allowed:
                     out.append(("corrupt:plaintext-of-or-after-unauthentic-frame-delivered", det))
+                if n_deliv < allowed:
+                    # the frames in front of the bad one are authentic and were sent: what they carry is decoded whatever the read boundaries are
+                    out.append(("corrupt:authentic-messages-in-front-of-the-bad-frame-lost", dict(det, delivered=n_deliv, complete_before_bad_frame=allowed)))
                 exp_http = [s for s in sent[:allowed] if s[0] == "HTTP"]
                 for r, s in zip(delivered, exp_http):
                     if (r[1], r[2]) != (s[1], s[3]):
@@ -376,7 +436,7 @@ def case_e2e_corrupt(p):
     return out
 
 
-CASES = {"e2e_corrupt": case_e2e_corrupt, "outbound": case_outbound, "graph": case_graph, "cuts": case_cuts, "corrupt": case_corrupt, "e2e": case_e2e}
+CASES = {"framesplits": case_framesplits, "e2e_corrupt": case_e2e_corrupt, "outbound": case_outbound, "graph": case_graph, "cuts": case_cuts, "corrupt": case_corrupt, "e2e": case_e2e}
 
 
 def _work(item, seed, tier):
@@ -384,9 +444,10 @@ def _work(item, seed, tier):
     name, p = item
     v = CASES[name](p)
     nodes, trans, n = p.pop("_stats", (0, 0, 0))
+    nchoices = p.pop("_n", 1)
     acc.states += nodes
     acc.transitions += trans
-    mult = len(p["lengths"]) if name == "outbound" else (len(p["bits"]) * len(p["cutsets"]) if name == "corrupt" else (len(p["bits"]) if name == "e2e_corrupt" else 1))
+    mult = len(p["lengths"]) if name == "outbound" else (len(p["bits"]) * len(p["cutsets"]) if name == "corrupt" else (len(p["bits"]) if name == "e2e_corrupt" else (nchoices if name == "framesplits" else 1)))
     acc.extra[f"{name}_executions"] += mult
     acc.case(key=(name, core.jsonable(p)), outcome=f"{name}:{'ok' if not v else v[0][0]}", sample={"case": name, "params": {k: (v_ if not isinstance(v_, list) or len(v_) < 12 else v_[:12] + ['...']) for k, v_ in p.items()}}, symbols=(name,))
     acc.traces += mult
@@ -419,6 +480,15 @@ def run(ctx):
         work.append(("cuts", {"msgs": [big_msg(3000), MSG_SMALL], "sizes": [1024, 1023, 1]}))
         work.append(("cuts", {"msgs": [big_msg(480), MSG_EVENT], "sizes": [300], "double": True}))
         work.append(("cuts", {"msgs": [big_msg(1100)], "sizes": [1024], "double": True, "step": 3}))
+    # frame boundaries as the accessory chooses them (= the read boundaries of the HTTP layer behind the decryption)
+    MSG_CHUNK2 = dict(kind="EVENT/1.0", code=200, reason="OK", headers=[("Content-Type", "application/hap+json")], framing="chunked", body=b'{"characteristics":[{"aid":1,"iid":10,"value":3}]}', chunks=[20, 1, 400])
+    work.append(("framesplits", {"msgs": [MSG_CHUNK, MSG_EVENT]}))
+    work.append(("framesplits", {"msgs": [MSG_CHUNK2, MSG_204, MSG_CHUNK]}))
+    work.append(("framesplits", {"msgs": [MSG_SMALL, MSG_EVENT, MSG_204]}))
+    if not quick:
+        work.append(("framesplits", {"msgs": [MSG_CHUNK, MSG_CHUNK2], "triples": 1, "max_uniform": 200}))
+        work.append(("framesplits", {"msgs": [MSG_EVENT, MSG_CHUNK2, MSG_SMALL], "triples": 2, "max_uniform": 400}))
+        work.append(("framesplits", {"msgs": [dict(MSG_CHUNK2, body=bytes(range(256)) * 9, chunks=[1024, 1, 1023, 256])], "max_uniform": 1024}))
     # corruption
     cmsgs, csizes = [MSG_204, MSG_EVENT, MSG_SMALL], [60]
     stream, sent, bounds = build_stream(cmsgs, csizes)
